@@ -974,6 +974,7 @@ def finish(rep, model, quiet=False):
     cov = {
         "explanation": rep.explanation,
         "files": model.digest if model is not None else {},
+        "canonical_form": (getattr(model, "canon_notes", None) or ["tree matches the inventory: analysed as written"]) if model is not None else [],
         "rule_instances": len(rep.instances),
         "obligations": rep.obligations,
         "discharged": rep.discharged,
